@@ -115,7 +115,7 @@ func genCase(rt *rapid.T) Case {
 	nops := rapid.IntRange(6, maxOps).Draw(rt, "nops")
 	for i := 0; i < nops; i++ {
 		var op Op
-		switch rapid.IntRange(0, 21).Draw(rt, "kind") {
+		switch rapid.IntRange(0, 22).Draw(rt, "kind") {
 		case 0, 1, 2, 3, 4, 5:
 			op = Op{K: "edit", A: rapid.IntRange(0, n-1).Draw(rt, "r"), B: rapid.IntRange(0, 6).Draw(rt, "snap"), C: rapid.IntRange(0, 3).Draw(rt, "size")}
 		case 6, 7, 8, 9, 10, 11:
@@ -130,6 +130,9 @@ func genCase(rt *rapid.T) Case {
 		case 16:
 			// concurrent snapshots on two replicas, each followed by an ordinary change
 			op = Op{K: "csnap", A: rapid.IntRange(0, n-1).Draw(rt, "r"), B: rapid.IntRange(0, n-1).Draw(rt, "r2"), C: rapid.IntRange(0, 3).Draw(rt, "after")}
+		case 17:
+			// late branch: the responder's root moves back, then it is probed (see lateBranch)
+			op = Op{K: "lateb", A: rapid.IntRange(0, n-1).Draw(rt, "r"), B: rapid.IntRange(0, n-1).Draw(rt, "r2"), C: rapid.IntRange(0, nLimits-1).Draw(rt, "limit"), D: rapid.IntRange(0, 9).Draw(rt, "variant")}
 		default:
 			op = genProbe(rt, n)
 		}
@@ -283,6 +286,8 @@ type checker struct {
 	classes map[string]bool
 	// per-case accounting
 	excluded                                       string
+	// rootsSeen[r]: in-memory roots replica r's current tree object has had (reset on reopen)
+	rootsSeen map[int][]string
 	probes, nontrivialProbes, batchesSeen, applied int
 	sigParts                                       []string
 }
@@ -602,6 +607,43 @@ func (ck *checker) checkFinal(p *probeInfo, tree objecttree.ObjectTree) error {
 	return nil
 }
 
+// observeRoots records every replica's current in-memory root (after every op).
+func (ck *checker) observeRoots() {
+	if ck.rootsSeen == nil {
+		ck.rootsSeen = map[int][]string{}
+	}
+	for _, r := range ck.s.Replicas {
+		if r.Tree == nil {
+			continue
+		}
+		r.Tree.Lock()
+		id := r.Tree.Root().Id
+		r.Tree.Unlock()
+		seen := ck.rootsSeen[r.Idx]
+		if len(seen) == 0 || seen[len(seen)-1] != id {
+			ck.rootsSeen[r.Idx] = append(seen, id)
+		}
+	}
+}
+
+// movedBack returns the later snapshots the replica's tree object was rooted at before
+// its root moved back to the current, older one (older = on their snapshot-base chain).
+func (ck *checker) movedBack(r int, cur string, d dag) []string {
+	var out []string
+	for _, prev := range ck.rootsSeen[r] {
+		if prev == cur {
+			continue
+		}
+		for s := d[prev].base; s != ""; s = d[s].base {
+			if s == cur {
+				out = append(out, prev)
+				break
+			}
+		}
+	}
+	return out
+}
+
 // classify records the shape of the pair.
 func (ck *checker) classify(p *probeInfo, R *treesim.Replica, rPath []string) (diverged bool) {
 	onlyH, onlyQ := 0, 0
@@ -652,6 +694,20 @@ func (ck *checker) classify(p *probeInfo, R *treesim.Replica, rPath []string) (d
 	}
 	if len(p.reqPath) > 0 && p.reqPath[0] != ck.s.Root.Id {
 		cl["requester-reduced"] = true
+	}
+	if len(rPath) > 0 {
+		// the responder had reduced to a later snapshot (and announced its path from there:
+		// every broadcast does) before an older concurrent branch moved its root back
+		if later := ck.movedBack(R.Idx, rPath[0], p.d); len(later) > 0 {
+			cl["responder-root-moved-back"] = true
+			for _, l := range later {
+				for _, s := range p.reqPath {
+					if s == l {
+						cl["responder-root-moved-back-requester-on-later-snapshot"] = true
+					}
+				}
+			}
+		}
 	}
 	if !p.emptyHeads {
 		known := 0
@@ -835,6 +891,10 @@ func (ck *checker) probe(op Op) error {
 	if R == nil {
 		return nil
 	}
+	return ck.probePair(R, Q, op)
+}
+
+func (ck *checker) probePair(R, Q *treesim.Replica, op Op) error {
 	p := &probeInfo{label: fmt.Sprintf("loader R=%d Q=%d", R.Idx, Q.Idx)}
 	if err := ck.gather(p, R, Q); err != nil {
 		return err
@@ -882,6 +942,10 @@ func (ck *checker) probeE2E(op Op) error {
 	if R == nil {
 		return nil
 	}
+	return ck.probeE2EPair(R, Q, op)
+}
+
+func (ck *checker) probeE2EPair(R, Q *treesim.Replica, op Op) error {
 	s := ck.s
 	p := &probeInfo{label: fmt.Sprintf("e2e R=%d Q=%d", R.Idx, Q.Idx), limit: prodBatchSize}
 	if err := ck.gather(p, R, Q); err != nil {
@@ -1083,6 +1147,92 @@ func (ck *checker) probeFetch(op Op) error {
 	return nil
 }
 
+// lateBranch is the history shape "root moves back": replica b edits from what it has (x),
+// replica a - without having seen x - edits and snapshots (S: its tree is reduced to S and the
+// broadcast caches its snapshot path there); a third replica c, if any, receives a's changes and
+// sits on S; then x reaches a, whose tree must be rebuilt from the older snapshot x is based on.
+// Immediately afterwards a is probed as responder by c (on S, lacks x) or by b (has x, behind S).
+func (ck *checker) lateBranch(op Op, doEdit func(r int, snap bool, sz int) error, size func(int) int) error {
+	s := ck.s
+	n := len(s.Replicas)
+	a, b := op.A%n, op.B%n
+	if a == b {
+		b = (a + 1) % n
+	}
+	if s.Replicas[a].Tree == nil || s.Replicas[b].Tree == nil {
+		return nil
+	}
+	step := func(m *treesim.Msg, fate treesim.Fate) error {
+		for i, x := range s.InFlight {
+			if x == m {
+				return s.Step(i, fate, 0)
+			}
+		}
+		return nil
+	}
+	mark := len(s.InFlight)
+	if err := doEdit(b, false, size(1)); err != nil {
+		return err
+	}
+	fromB := append([]*treesim.Msg(nil), s.InFlight[mark:]...)
+	mark = len(s.InFlight)
+	if err := doEdit(a, false, size(2)); err != nil {
+		return err
+	}
+	if err := doEdit(a, true, size(0)); err != nil {
+		return err
+	}
+	if op.D%3 == 0 { // something after the snapshot too
+		if err := doEdit(a, false, size(1)); err != nil {
+			return err
+		}
+	}
+	ck.observeRoots() // a is rooted at S now
+	fromA := append([]*treesim.Msg(nil), s.InFlight[mark:]...)
+	for _, m := range fromA { // a's changes reach everybody but b
+		fate := treesim.Deliver
+		if m.To == b {
+			fate = treesim.Drop
+		}
+		if err := step(m, fate); err != nil {
+			return err
+		}
+	}
+	mark = len(s.InFlight)
+	for _, m := range fromB { // x reaches a only
+		fate := treesim.Drop
+		if m.To == a {
+			fate = treesim.Deliver
+		}
+		if err := step(m, fate); err != nil {
+			return err
+		}
+	}
+	// what a and the others sent in reaction (requests, a's re-broadcast of x) is lost
+	for len(s.InFlight) > mark {
+		if err := s.Step(len(s.InFlight)-1, treesim.Drop, 0); err != nil {
+			return err
+		}
+	}
+	ck.observeRoots()
+	ck.classes["late-branch"] = true
+	R := s.Replicas[a]
+	q := b
+	for i := 0; i < n; i++ {
+		if i != a && i != b && s.Replicas[i].Tree != nil {
+			q = i
+		}
+	}
+	if op.D >= 8 {
+		q = b
+	}
+	Q := s.Replicas[q]
+	if op.D%2 == 1 {
+		return ck.probeE2EPair(R, Q, Op{K: "probe-e2e", D: 0})
+	}
+	return ck.probePair(R, Q, op)
+}
+
 // ---- the run -----------------------------------------------------------------------------------
 
 func run(c Case) (out vstat.Outcome, err error) {
@@ -1110,6 +1260,7 @@ func run(c Case) (out vstat.Outcome, err error) {
 		edits++
 		return nil
 	}
+	ck.observeRoots()
 	for i, op := range c.Ops {
 		step := fmt.Sprintf("op %d %+v", i, op)
 		var err error
@@ -1162,7 +1313,10 @@ func run(c Case) (out vstat.Outcome, err error) {
 				err = fmt.Errorf("harness: replica %d could not be reopened from its own storage: %v", op.A%c.N, err)
 			} else {
 				ck.classes["reopen"] = true
+				delete(ck.rootsSeen, op.A%c.N)
 			}
+		case "lateb":
+			err = ck.lateBranch(op, doEdit, size)
 		case "probe":
 			err = ck.probe(op)
 		case "probe-e2e":
@@ -1175,6 +1329,7 @@ func run(c Case) (out vstat.Outcome, err error) {
 		if err != nil {
 			return out, fmt.Errorf("%s: %v\nlog tail:\n%s", step, err, tail(s.Log))
 		}
+		ck.observeRoots()
 	}
 	out.Sig = vstat.Hash(c.Seed, c.N, c.Big, strings.Join(ck.sigParts, "|"))
 	out.NonTrivial = ck.nontrivialProbes > 0
@@ -1254,6 +1409,20 @@ func scenarios() []Case {
 	s3.Ops = append(s3.Ops, allLimits("probe", 0, 1, 7)...)
 	s3.Ops = append(s3.Ops, Op{K: "probe-e2e", A: 2, B: 1}, Op{K: "probe-e2e", A: 1, B: 1, D: 1}, Op{K: "probe-fetch", A: 2})
 	cs = append(cs, s3)
+	// 4: the responder (0) reduces to snapshot S and announces its path from there, then a late
+	// change of replica 1, based on the older snapshot, moves its root back; replica 2 sits on S
+	// and lacks the late branch, replica 1 has it and is behind S. Every limit, both requesters,
+	// then the same after the responder merged the two branches.
+	s4 := Case{Seed: 14, N: 3, Holders: 3}
+	s4.Ops = append(s4.Ops, ed(0, 1), Op{K: "deliver", A: 0}, Op{K: "deliver", A: 0})
+	for l := 0; l < nLimits; l++ {
+		s4.Ops = append(s4.Ops, Op{K: "lateb", A: 0, B: 1, C: l, D: 2 * (l % 3)}) // loader probes, Q = 2
+	}
+	s4.Ops = append(s4.Ops, Op{K: "lateb", A: 0, B: 1, C: limOne, D: 1}, Op{K: "lateb", A: 0, B: 1, C: limOne, D: 8}, Op{K: "lateb", A: 0, B: 1, C: lim64, D: 9})
+	s4.Ops = append(s4.Ops, ed(0, 2), dropAll)
+	s4.Ops = append(s4.Ops, allLimits("probe", 0, 1, 0)...)
+	s4.Ops = append(s4.Ops, Op{K: "probe-e2e", A: 0, B: 1}, Op{K: "probe-e2e", A: 0, B: 0, D: 1}, Op{K: "probe-fetch", A: 0})
+	cs = append(cs, s4)
 	return cs
 }
 
